@@ -3,9 +3,11 @@
 package optarea
 
 import (
+	"encoding/json"
 	"flag"
 	"fmt"
 	"hash/fnv"
+	"regexp"
 	"sort"
 
 	"dawgsverif/areas/frontarea"
@@ -153,20 +155,132 @@ func (s *exporter) clauses(readingClauses []*cypher.ReadingClause) ([]map[string
 	return out, len(out) > 0
 }
 
-// firstPart: the reading clauses the rewrites work on first - of a single-part query, or of the first part of a
-// multi-part query (later parts start from the rows a WITH hands over, which MatchSem does not model)
-func firstPart(q *cypher.RegularQuery) []*cypher.ReadingClause {
-	if q == nil || q.SingleQuery == nil {
-		return nil
+// bound collects the names a list of exported clauses binds, in order
+func bound(clauses []map[string]any) []string {
+	var out []string
+	seen := map[string]bool{}
+	add := func(v string) {
+		if v != "" && !seen[v] {
+			seen[v] = true
+			out = append(out, v)
+		}
 	}
-	if mp := q.SingleQuery.MultiPartQuery; mp != nil && len(mp.Parts) > 0 && mp.Parts[0] != nil {
-		return mp.Parts[0].ReadingClauses
+	for _, cl := range clauses {
+		for _, pat := range cl["pats"].([]map[string]any) {
+			add(pat["pv"].(string))
+			for _, el := range pat["els"].([]map[string]any) {
+				add(el["v"].(string))
+			}
+		}
 	}
-	if sp := q.SingleQuery.SinglePartQuery; sp != nil {
-		return sp.ReadingClauses
-	}
-	return nil
+	return out
 }
+
+// parts exports a query as a sequence of parts [clauses, carry, drop]: the parts of a multi-part query as long as each
+// WITH only hands variables on (optionally renamed) - no DISTINCT, aggregation, ORDER BY, SKIP, LIMIT or WHERE - and then
+// the final part; a WITH that does more ends the export there (what has been exported up to it is still evaluated).
+func (s *exporter) parts(q *cypher.RegularQuery) ([]map[string]any, bool) {
+	if q == nil || q.SingleQuery == nil {
+		return nil, false
+	}
+	type rawPart struct {
+		clauses []*cypher.ReadingClause
+		with    *cypher.With
+	}
+	var raw []rawPart
+	if mp := q.SingleQuery.MultiPartQuery; mp != nil {
+		for _, p := range mp.Parts {
+			if p == nil || len(p.UpdatingClauses) > 0 {
+				return nil, false
+			}
+			raw = append(raw, rawPart{p.ReadingClauses, p.With})
+		}
+		if mp.SinglePartQuery != nil {
+			raw = append(raw, rawPart{mp.SinglePartQuery.ReadingClauses, nil})
+		}
+	} else if sp := q.SingleQuery.SinglePartQuery; sp != nil {
+		raw = append(raw, rawPart{sp.ReadingClauses, nil})
+	}
+	out := []map[string]any{}
+	visible := map[string]bool{} // names the next part can see
+	for k, rp := range raw {
+		if len(rp.clauses) == 0 {
+			break
+		}
+		clauses, ok := s.clauses(rp.clauses)
+		if !ok {
+			break
+		}
+		part := map[string]any{"clauses": clauses, "carry": []map[string]string{}, "drop": []map[string]string{}}
+		for _, v := range bound(clauses) {
+			visible[v] = true
+		}
+		if rp.with == nil {
+			out = append(out, part)
+			break
+		}
+		pr := rp.with.Projection
+		if pr == nil || pr.Distinct || pr.All || pr.Order != nil || pr.Skip != nil || pr.Limit != nil || rp.with.Where != nil {
+			out = append(out, part)
+			break
+		}
+		carry := []map[string]string{}
+		next := map[string]bool{}
+		plain := true
+		for _, it := range pr.Items {
+			pi, isItem := it.(*cypher.ProjectionItem)
+			if !isItem {
+				plain = false
+				break
+			}
+			v, isVar := pi.Expression.(*cypher.Variable)
+			if !isVar || !visible[v.Symbol] {
+				plain = false
+				break
+			}
+			to := v.Symbol
+			if pi.Alias != nil && pi.Alias.Symbol != "" {
+				to = pi.Alias.Symbol
+			}
+			carry = append(carry, map[string]string{"f": v.Symbol, "t": to})
+			next[to] = true
+		}
+		if !plain {
+			out = append(out, part)
+			break
+		}
+		// everything else stays in the row under a made-up name, so that rows keep their multiplicity
+		drop := []map[string]string{}
+		carried := map[string]bool{}
+		for _, c := range carry {
+			carried[c["f"]] = true
+		}
+		names := make([]string, 0, len(visible))
+		for v := range visible {
+			names = append(names, v)
+		}
+		sort.Strings(names)
+		for _, v := range names {
+			if !carried[v] {
+				h := fmt.Sprintf("_w%d_%s", k, v)
+				s.hidden = append(s.hidden, h)
+				drop = append(drop, map[string]string{"f": v, "t": h})
+			}
+		}
+		part["carry"], part["drop"] = carry, drop
+		out = append(out, part)
+		visible = next
+	}
+	return out, len(out) > 0
+}
+
+// structure strips the made-up names, which differ between two exports of the same query
+func structure(parts []map[string]any) string {
+	b, _ := json.Marshal(parts)
+	return hiddenName.ReplaceAllString(string(b), "_")
+}
+
+var hiddenName = regexp.MustCompile(`_[hw][0-9]+(_[A-Za-z0-9_]+)?`)
 
 // Graph is a small property graph as printed by GraphGen.tla.
 type Graph struct {
@@ -217,18 +331,17 @@ func Export(args []string) {
 		if err != nil || plan.Query == nil {
 			continue
 		}
-		before, after := firstPart(m.Query), firstPart(plan.Query)
-		same := walkarea.DumpOf(before) == walkarea.DumpOf(after)
-		if same && !*all {
+		ex := &exporter{nodeKinds: map[string]int{}, edgeKinds: map[string]int{}}
+		orig, ok1 := ex.parts(m.Query)
+		hiddenOrig := ex.hidden
+		ex.hidden, ex.next = nil, 1000
+		opt, ok2 := ex.parts(plan.Query)
+		if !ok1 || !ok2 || len(orig) != len(opt) || len(ex.nodeKinds) > 2 || len(ex.edgeKinds) > 2 {
+			unsupported++
 			continue
 		}
-		ex := &exporter{nodeKinds: map[string]int{}, edgeKinds: map[string]int{}}
-		orig, ok1 := ex.clauses(before)
-		hiddenOrig := ex.hidden
-		ex.hidden = nil
-		opt, ok2 := ex.clauses(after)
-		if !ok1 || !ok2 || len(ex.nodeKinds) > 2 || len(ex.edgeKinds) > 2 {
-			unsupported++
+		same := walkarea.DumpOf(structure(orig)) == walkarea.DumpOf(structure(opt))
+		if same && !*all {
 			continue
 		}
 		if !same {
@@ -247,7 +360,7 @@ func Export(args []string) {
 			ex.hidden = []string{}
 		}
 		w.Emit(map[string]any{"e": "pair", "hid": hid, "text": m.Text, "rewritten": !same, "rules": rules, "node_kinds": ex.nodeKinds, "edge_kinds": ex.edgeKinds,
-			"orig": map[string]any{"clauses": orig, "hidden": hiddenOrig}, "opt": map[string]any{"clauses": opt, "hidden": ex.hidden}})
+			"orig": map[string]any{"parts": orig, "hidden": hiddenOrig}, "opt": map[string]any{"parts": opt, "hidden": ex.hidden}})
 		for k := 0; k < *perPair && k < len(gs); k++ {
 			g := gs[(k*7919+mi*104729+*seed*15485863)%len(gs)]
 			w.Emit(map[string]any{"e": "graph", "hid": hid, "g": g})
